@@ -59,6 +59,12 @@ def states(tier, seed):
                 st.append(dict(base, part="vars", dvs={a: [SINGLE[a][1], "const"], b: [SINGLE[b][2], "const"]}))
     for nsec, nx, rap, dv in itertools.product([1, 2, 3], [2, 3], [0.25, 0.0, 0.6, 1.0], ["none", "both_default", "twist", "chord"]):
         st.append(dict(part="multisec", nsec=nsec, nx=nx, rap=rap, dv=dv, fam=fam))
+    # unified B-spline control points of a multi-section surface (build_multi_spline / connect_multi_spline): every count
+    # combination of 2-4 control points on 2 and 3 sections
+    for nsec in (2, 3):
+        for counts in itertools.product([2, 3, 4], repeat=nsec):
+            for what in ("chord_cp", "twist_cp"):
+                st.append(dict(part="unispline", counts=list(counts), what=what, fam=fam))
     for ncp, (side, ny), what in itertools.product([1, 2, 3, 5], [("left", 3), ("left", 4), ("full", 5), ("full", 7)], ["twist_cp", "chord_cp", "t_over_c_cp", "xshear_cp", "zshear_cp", "thickness_cp", "radius_cp"]):
         st.append(dict(part="spline", ncp=ncp, side=side, ny=ny, what=what, fam=fam))
     return st, 0
@@ -140,6 +146,46 @@ def expected(m0, s, dvals):
 
 def run_state(s):
     return globals()["part_" + s["part"]](s)
+
+
+def part_unispline(s):
+    """documented layout: the unified vector is laid out section after section with ONE shared control point at every junction
+    ('each edge control point controls the edge control points of each section's B-spline')"""
+    from openaerostruct.geometry.geometry_group import MultiSecGeometry, build_sections
+    from openaerostruct.geometry.multi_unified_bspline_utils import build_multi_spline, connect_multi_spline
+
+    counts, what = s["counts"], s["what"]
+    n = len(counts)
+    base = 1.0 if what == "chord_cp" else 0.0
+    cps = [np.full(c, base) for c in counts]
+    surf = {"name": "surface", "is_multi_section": True, "num_sections": n, "sec_name": ["sec%d" % i for i in range(n)], "symmetry": True, "S_ref_type": "wetted", "root_section": n - 1, "taper": [1.0] * n, "span": [1.0] * n, "sweep": [0.0] * n, "root_chord": 1.0, "meshes": "gen-meshes", "nx": 2, "ny": [5] * n, "CL0": 0.0, "CD0": 0.015, "k_lam": 0.05, "c_max_t": 0.303, "with_viscous": False, "with_wave": False, "groundplane": False}
+    surf["chord_cp"] = [np.ones(c) for c in counts] if what == "chord_cp" else [np.ones(2) for _ in counts]
+    surf["twist_cp"] = [np.zeros(c) for c in counts] if what == "twist_cp" else [np.zeros(2) for _ in counts]
+    p = om.Problem(reports=False)
+    secs = build_sections(surf)
+    p.model.add_subsystem("uni", build_multi_spline(what, n, cps))
+    connect_multi_spline(p, secs, cps, what, "uni", "surface")
+    p.model.add_subsystem("surface", MultiSecGeometry(surface=surf))
+    p.setup()
+    nu = p.get_val("uni.%s_spline" % what).size
+    viol, val = [], 1
+    want_n = sum(counts) - (n - 1)
+    if nu != want_n:
+        viol.append(dict(sig=dict(oracle="unified_vector_size", what=what), msg="unified %s vector has %d entries for control-point counts %s (one shared point per junction: %d)" % (what, nu, counts, want_n), measure=1.0))
+        return dict(viol=viol, nontrivial=True, digest="size", transitions=1, validated=val)
+    u = base + 0.1 * (1 + np.arange(nu)) + 0.013 * s["fam"]
+    p.set_val("uni.%s_spline" % what, u)
+    p.run_model()
+    got = [np.array(p.get_val("surface.sec%d.%s" % (i, what))).ravel() for i in range(n)]
+    joined = np.concatenate([g if i == 0 else g[1:] for i, g in enumerate(got)])
+    val += 1
+    if joined.shape != u.shape or not np.array_equal(joined, u):
+        viol.append(dict(sig=dict(oracle="unified_layout", what=what), msg="counts %s: the sections receive %s, the unified vector is %s" % (counts, [np.round(g, 3).tolist() for g in got], np.round(u, 3).tolist()), measure=1.0))
+    for i in range(n - 1):
+        val += 1
+        if got[i][-1] != got[i + 1][0]:
+            viol.append(dict(sig=dict(oracle="junction_shares_control_point", what=what), msg="counts %s: junction %d|%d has control points %.4f and %.4f" % (counts, i, i + 1, got[i][-1], got[i + 1][0]), measure=1.0))
+    return dict(viol=viol, nontrivial=True, digest=digest_arrays(*got), transitions=1, validated=val)
 
 
 def part_multisec(s):
